@@ -87,12 +87,18 @@ def _read_box(w, order="F"):
     return [[_cf(a), _cf(b)] for a, b in t]
 
 
+def _flag(case):
+    """the masking flag as a Python bool, a numpy bool (what a comparison returns) or 0 / 1"""
+    v = case["withbb"]
+    return {"np": np.bool_(v), "int": int(v)}.get(case.get("flag_form"), v)
+
+
 def _call(w, pt, case, force_off=False):
     kw = {}
     if force_off:
         kw["with_bounding_box"] = False
     elif case["withbb"] is not None:
-        kw["with_bounding_box"] = case["withbb"]
+        kw["with_bounding_box"] = _flag(case)
     if case["fill"] is not None:
         kw["fill_value"] = case["fill"]
     r = w(*pt, **kw)
@@ -138,11 +144,17 @@ def impl(case):
     # a wrong-dimensional assignment must be rejected and change nothing
     wrong = case["wrong_box"]
     try:
-        w.bounding_box = tuple((lo, hi) for lo, hi in wrong)
+        wb_ = tuple((lo, hi) for lo, hi in wrong)
+        w.bounding_box = np.array(wb_) if (case.get("wrong_as_array") and len(wb_) > 0) else wb_
         res["wrong"] = "accepted"
     except Exception as e:
         res["wrong"] = C.exc_enum(e)
-    res["box_after_wrong"] = _read_box(w)
+    try:
+        res["box_after_wrong"] = _read_box(w)
+    except Exception as e:
+        res["box_after_wrong"] = "unreadable (%s)" % type(e).__name__
+        if res["wrong"] == "accepted":
+            return res        # (the WCS is left with a box that is not a box: reported by the oracle, nothing more can be evaluated)
     vals, plain, shapes_ok = [], [], True
     for pt in case["pts"]:
         r = _call(w, pt, case)
@@ -180,7 +192,7 @@ def impl(case):
     cols = [np.array([pt[i] for pt in case["pts"]], dtype=float).reshape(shape) for i in range(n)]
     kw = {}
     if case["withbb"] is not None:
-        kw["with_bounding_box"] = case["withbb"]
+        kw["with_bounding_box"] = _flag(case)
     if case["fill"] is not None:
         kw["fill_value"] = case["fill"]
     try:
@@ -212,7 +224,9 @@ def oracle(case, res):
     if res["pixel_bounds"] != exp_box:
         out.append(("pixel_bounds", "pixel_bounds %s != box %s" % (res["pixel_bounds"], exp_box)))
     if res["wrong"] == "accepted":
-        out.append(("bad_dim", "a %d-interval box was accepted by a %d-input WCS" % (len(case["wrong_box"]), len(case["ab"]))))
+        out.append(("bad_dim", "a %d-interval box%s was accepted by a %d-input WCS" % (len(case["wrong_box"]), " (given as an array)" if case.get("wrong_as_array") else "", len(case["ab"]))))
+        if "vals" not in res:
+            return out
     if res["box_after_wrong"] != exp_box:
         out.append(("bad_dim_state", "rejected box assignment changed the box: %s -> %s" % (exp_box, res["box_after_wrong"])))
     if res["box_after_eval"] != exp_box or res["box_default_after_eval"] != exp_box or res["box_eq_after_eval"] is False:
@@ -254,6 +268,8 @@ def _dec(s):
 
 
 def request(case, res):
+    if "vals" not in res:
+        return None
     req = _request(case, res)
     if case["box"] is not None and case.get("how", "setter") != "setter" and len(case["ab"]) > 1:
         # the box as it is stored on the astropy model: its own ('C') order, last input first
@@ -358,6 +374,8 @@ def gen(rng, tier):
         wrong = [[0.0, 1.0 + i] for i in range(wd)]
         case = {"ab": ab, "box": box, "boxkind": kind, "fill": fill, "withbb": withbb, "pts": pts, "shape": rng.choice(shapes[npts]),
                 "wrong_box": wrong, "has_edge": has_edge, "how": rng.choice(["setter", "setter", "model", "copy"])}
+        case["flag_form"] = rng.choice([None, None, "np", "int"])
+        case["wrong_as_array"] = rng.random() < 0.3
         if case["how"] == "setter" and rng.random() < 0.4:
             # the same arithmetic as a 2- or 3-step pipeline, optionally with one more world than pixel axes
             case["nsteps"] = rng.choice([2, 3])
